@@ -65,14 +65,14 @@ def generate(rs: int, tier: str, index: int) -> dict:
     if kindc == "float" and crd.chance(0.7 if sympy_case else 0.1):
         # arbitrary doubles (all 53 bits in use): their shortest decimal form has 16-17 digits, and reading it back in
         # two rounding steps instead of one lands on a neighbouring double now and then
-        lit["coefficients"] = [[(crd.below(2**53) + 1) / 2**53 * crd.choice([1.0, 1.0, 1000.0, 1e-3, -1.0, 1e10]) for _ in col] for col in lit["coefficients"]]
+        lit["coefficients"] = [[(crd.below(2**53) + 1) / 2**53 * crd.choice([1.0, 1.0, 1000.0, 1e-3, -1.0, 1e10, 1e-7, 1e18, 1e-30]) for _ in col] for col in lit["coefficients"]]
     # units and negative leading/trailing terms
     for col in lit["coefficients"]:
         for j in range(len(col)):
             if ch.chance(0.25) and kindc in ("int", "float"):
                 col[j] = ch.choice([1, -1]) if kindc == "int" else ch.choice([1.0, -1.0])
             elif ch.chance(0.2) and kindc == "complex":
-                col[j] = ch.choice([[1.0, 0.0], [-1.0, 0.0], [0.0, 1.0], [0.0, -1.0], [-0.0, -1.0], [-2.0, 0.0], [0.6, 0.8]])
+                col[j] = ch.choice([[1.0, 0.0], [-1.0, 0.0], [0.0, 1.0], [0.0, -1.0], [-0.0, -1.0], [-2.0, 0.0], [0.6, 0.8], [2.0, 1e-15], [0.0, 1e-20], [-1.5, -3e-16]])
     if kindc == "int" and not sympy_case and ch.chance(0.2):
         dt = ch.choice(["int8", "int32", "uint8", "uint16", "uint64"])
         lit["dtype"] = dt
@@ -116,11 +116,21 @@ def generate(rs: int, tier: str, index: int) -> dict:
         np_print = {k: v for k, v in {"linewidth": cnp.choice([20, 40, 75, 200]), "precision": cnp.choice([2, 4, 8, 17]), "sign": cnp.choice(["-", "+", " "]),
                                       "floatmode": cnp.choice(["maxprec", "fixed", "unique", "maxprec_equal"])}.items()
                     if cnp.chance(0.5)} or {"linewidth": 30}
+    dec_prec = cnp.sub("decimal").choice([6, 3, 12]) if cnp.sub("decimal").chance(0.15) else None  # the thread's decimal context, lowered by earlier code
     abort = ch.below(100000) if ch.chance(0.2) else None  # an earlier print of the same array, with other settings, was interrupted part-way
-    step = {"id": 0, "k": "sympy" if sympy_case else "text", "p": lit, "display": display, "other_options": other, "all_orders": ch.chance(0.3), "abort_first": abort, "np_print": np_print,
+    step = {"id": 0, "k": "sympy" if sympy_case else "text", "p": lit, "display": display, "other_options": other, "all_orders": ch.chance(0.3), "abort_first": abort, "np_print": np_print, "decimal_prec": dec_prec,
             "reach": ch.weighted([(5, "direct"), (2, "nested"), (2, "set_inside")])}
     pols = POLICIES if tier == "thorough" else ["stable", ch.choice(POLICIES[1:])]
     return {"property": ID, "run_seed": rs, "tier": tier, "prelude": prelude.gen_prelude(core.Chooser(rs, "prelude")), "policies": pols, "steps": [step]}
+
+
+def _decimal_precision(prec: Any) -> Any:
+    import contextlib
+    import decimal
+
+    if not prec:
+        return contextlib.nullcontext()
+    return decimal.localcontext(decimal.Context(prec=prec))
 
 
 # ---------------------------------------------------------------------------
@@ -332,7 +342,7 @@ class Runner:
                 with seams.Env(core.H(self.rs, pol), sort=pol, fill="a5") as env, reach_display(step.get("reach", "direct"), display, step.get("other_options")):
                     env.begin_step(sid)
                     try:
-                        with numpy.printoptions(**(step.get("np_print") or {})):
+                        with numpy.printoptions(**(step.get("np_print") or {})), _decimal_precision(step.get("decimal_prec")):
                             s_text, r_text = str(p), repr(p)
                     except Exception as exc:  # noqa: BLE001
                         if not core.through_numpoly(exc, NUMPOLY_DIR):
@@ -485,6 +495,8 @@ def simplify(plan: dict):
         yield dict(plan, steps=[dict(step, abort_first=None)])
     if step.get("np_print"):
         yield dict(plan, steps=[dict(step, np_print=None)])
+    if step.get("decimal_prec"):
+        yield dict(plan, steps=[dict(step, decimal_prec=None)])
     if step.get("reach") != "direct":
         yield dict(plan, steps=[dict(step, reach="direct")])
     if step["display"]["display_exponent"] != "**" or step["display"]["display_multiply"] != "*":
